@@ -503,6 +503,26 @@ def install(w):
         return VBool(z3.And(z3.Not(n.nan), n.rank == 0))
     w.builtins["py:isfinite"] = b_isfinite
 
+    def b_isnan(it, f, args, kw, node):
+        (v,) = args
+        n = numeric(it, v)
+        if n is None:
+            it.throw(TypeError, node, "SAFE-Type")
+        use("math.isnan / math.isinf: TypeError unless a number; by the float class")
+        it.guard(n.ok, TypeError, node, "SAFE-Type")
+        return VBool(n.nan)
+    w.builtins["py:isnan"] = b_isnan
+
+    def b_isinf(it, f, args, kw, node):
+        (v,) = args
+        n = numeric(it, v)
+        if n is None:
+            it.throw(TypeError, node, "SAFE-Type")
+        use("math.isnan / math.isinf: TypeError unless a number; by the float class")
+        it.guard(n.ok, TypeError, node, "SAFE-Type")
+        return VBool(z3.And(z3.Not(n.nan), n.rank != 0))
+    w.builtins["py:isinf"] = b_isinf
+
     def b_abs(it, f, args, kw, node):
         (v,) = args
         if isinstance(v, VInt):
